@@ -939,6 +939,15 @@ impl Session {
     }
 }
 
+impl Drop for Session {
+    fn drop(&mut self) {
+        // An open transaction must not outlive its session: undo its writes.
+        if self.current_tx.is_some() {
+            let _ = self.rollback();
+        }
+    }
+}
+
 #[cfg(test)]
 mod tests {
     use crate::database::GrafeoDB;
